@@ -25,6 +25,7 @@ import (
 	"os/exec"
 	"os/signal"
 	"path/filepath"
+	"regexp"
 	"runtime"
 	"sort"
 	"strconv"
@@ -302,6 +303,7 @@ func prepare(world, keepDir string) (*scratch, error) {
 			"// generated by verif: serve exactly what NewServer() configured on a simulated listener\n" +
 			"func (s *Server) VerifServe(ln net.Listener) error { return s.srv.Serve(ln) }\n\n" +
 			"func (s *Server) VerifShutdown() error { return s.srv.Shutdown() }\n\n" +
+			verifStopSrc(apiDir) +
 			"func (s *Server) VerifFast() *fasthttp.Server { return s.srv }\n"
 		if err := os.WriteFile(filepath.Join(apiDir, "verif_export.go"), []byte(acc), 0o644); err != nil {
 			return nil, err
@@ -563,7 +565,7 @@ func runWorker(sc *scratch, prop, tier, variant string, idx int, seed uint64, bu
 		}
 	}
 	// the process died while serving an event: the harness left a witness behind
-	if res.fail == nil && res.stats == nil && !res.timedOut {
+	if res.fail == nil && res.stats == nil && !res.timedOut && !unsimulable(readTail(logp, 1<<30)) {
 		if b, err := os.ReadFile(failp + ".pending"); err == nil {
 			var ff failFile
 			if json.Unmarshal(b, &ff) == nil && ff.Crash {
@@ -592,7 +594,7 @@ func replayOnce(sc *scratch, prop, variant, path string, extraEnv []string) (str
 		_ = json.Unmarshal(sb, &ws)
 	} else {
 		txt := string(b)
-		if err != nil && (strings.Contains(txt, "panic:") || strings.Contains(txt, "fatal error:") || strings.Contains(txt, "SIGSEGV") || strings.Contains(txt, "VERIF-HANG")) && !strings.Contains(txt, "VERIF-UNSUPPORTED") {
+		if err != nil && (strings.Contains(txt, "panic:") || strings.Contains(txt, "fatal error:") || strings.Contains(txt, "SIGSEGV") || strings.Contains(txt, "VERIF-HANG")) && !unsimulable(txt) {
 			return "PROCESS-CRASH", txt, nil
 		}
 		return "", txt, fmt.Errorf("replay produced no result file: %v\n%s", err, tail(txt, 40))
@@ -604,6 +606,34 @@ func replayOnce(sc *scratch, prop, variant, path string, extraEnv []string) (str
 		return ws.ReplaySig, string(b), nil
 	}
 	return "", string(b), nil
+}
+
+// verifStopSrc generates VerifStop: the operator's documented way to stop the
+// service (Server.Stop), so that whatever a changed tree starts in NewServer and
+// stops in Stop is stopped too. The simulated server is served on a simulated
+// listener without Start(), so the cancel function Start() would have stored is
+// supplied here when the field exists and is still nil.
+func verifStopSrc(apiDir string) string {
+	b, _ := os.ReadFile(filepath.Join(apiDir, "server.go"))
+	src := string(b)
+	hasStop := strings.Contains(src, "func (s *Server) Stop()") || strings.Contains(src, ") Stop() {")
+	if !hasStop {
+		return "func (s *Server) VerifStop() { _ = s.srv.Shutdown() }\n\n"
+	}
+	pre := ""
+	if regexp.MustCompile(`(?m)^\s*cancelFunc\s+context\.CancelFunc`).MatchString(src) {
+		pre = "\tif s.cancelFunc == nil {\n\t\ts.cancelFunc = func() {}\n\t}\n"
+	}
+	return "func (s *Server) VerifStop() {\n" + pre + "\ts.Stop()\n}\n\n"
+}
+
+// unsimulable: the process died of a limit of the simulation, not of the code
+// under test - a bubble that cannot become quiescent (VERIF-UNSUPPORTED, see the
+// World C watchdog) or a channel of one synctest bubble used from another one
+// (a goroutine or channel of the code under test that lives longer than one
+// simulated run). Never a witness.
+func unsimulable(txt string) bool {
+	return strings.Contains(txt, "VERIF-UNSUPPORTED") || strings.Contains(txt, "from outside bubble") || strings.Contains(txt, "synctest channel")
 }
 
 // replayHistory regenerates the whole sequence of plans the worker executed (same
@@ -629,7 +659,7 @@ func replayHistory(sc *scratch, prop, variant string, ff *failFile) (string, str
 		_ = json.Unmarshal(sb, &ws)
 	} else {
 		txt := string(b)
-		if err != nil && (strings.Contains(txt, "panic:") || strings.Contains(txt, "fatal error:") || strings.Contains(txt, "SIGSEGV") || strings.Contains(txt, "VERIF-HANG")) && !strings.Contains(txt, "VERIF-UNSUPPORTED") {
+		if err != nil && (strings.Contains(txt, "panic:") || strings.Contains(txt, "fatal error:") || strings.Contains(txt, "SIGSEGV") || strings.Contains(txt, "VERIF-HANG")) && !unsimulable(txt) {
 			return "PROCESS-CRASH", txt, nil
 		}
 		return "", txt, fmt.Errorf("history replay produced no result file: %v\n%s", err, tail(txt, 30))
